@@ -18,14 +18,15 @@ from rdflib.plugins.stores.memory import Memory, SimpleMemory  # noqa: E402
 TRUSTED = [
     "Coq 8.16.1 kernel and vm_compute",
     "harness/c01.py: translation of cases to rdflib calls and of rdflib answers to term numbers (harness/terms.py numbering never calls rdflib __eq__/__hash__)",
-    "coq/Store/Model.v, Reads.v, StoreLevel.v, Iter.v are faithful transcriptions of memory.py / graph.py / Store.triples_choices (tied to the source by this correspondence check, not proved)",
+    "coq/Store/Model.v, Reads.v, StoreLevel.v, Iter.v, SimpleIter.v, Transitive.v/TransitiveGraph.v are faithful transcriptions of memory.py / graph.py / Store.triples_choices (tied to the source by this correspondence check, not proved)",
     "CPython dict/set semantics as modelled in coq/Store/PyDict.v (insertion-ordered association list)",
 ]
 ASSUMPTIONS = [
     "MA1: a generator of Memory.triples holds references to inner dicts; inner dicts are never replaced, so lookup by path in the current state is the same",
     "MA2: Memory.remove and Graph.__isub__ run over a live generator of the store's triples(); modelled as the list computed up front (both stores snapshot the key lists / triple set they walk, a removed triple is never revisited, removing one triple does not change another's entry)",
     "MA3: Graph.add always passes quoted=False, so the per-triple context dict is modelled by its key list",
-    "MA4: Graph.__iadd__/addN consume the other graph lazily; Memory snapshots its triple set, SimpleMemory adds never resize a dict that is being walked, so the list computed up front is the same",
+    "MA4 (now proved, not assumed: C01_memory_iteration_is_snapshot, C01_simple_iteration_const, C01_simple_isub_interleaved, C01_simple_iadd_interleaved): the interleaved loops of += / -= / the binary operators see the list computed up front",
+    "transitive walks: the model has no recursion limit (Python raises RecursionError on chains longer than the interpreter's limit)",
     "MA5: Graph.value(any=True) returns the first matching term in dict insertion order; the model reproduces that order except after an insertion made while walking a Python set (+=, operator results) - then only 'some matching term / None iff none' is compared",
     "store-level suite: contexts are Graph objects with identifiers from GRAPH_POOL, one per store key; Memory.add is never called with context=None",
     "terms are abstract identifiers with decidable equality; independence of the code from Python truthiness is established by the tie (falsy terms in every vocabulary), not by the theorems",
@@ -38,7 +39,10 @@ RULE = ("histories: random operation sequences (add, addN, remove with all wildc
         "open-iterator and next() steps on one Memory store. reads: a history, then the derived read API (6 generators x unique, value x any, "
         "triples_choices with 0-4 element lists incl. repeats) on every graph for 1-2 probes. storelevel: add/remove (context a graph or None, all "
         "wildcard shapes)/add_graph/remove_graph on one Memory or SimpleMemory store, after every operation every context key incl. None is "
-        "observed (triples, len, 8 shapes) plus contexts() and contexts(probe). A case is distinct by its full content; non-trivial when it contains a removal "
+        "observed (triples, len, 8 shapes) plus contexts() and contexts(probe). simpleiter: adds/removes on one SimpleMemory graph interleaved with "
+        "next()/list() of up to 3 open iter(g), yields compared exactly in order. transitive: 2-4 nodes (falsy literals included) x 1-2 predicates, random "
+        "edges with self-loops and cycles on 1-2 graphs of either store, then transitive_objects / transitive_subjects / transitiveClosure for 1-3 "
+        "(start, predicate-or-None) queries incl. a start that is not in the graph. A case is distinct by its full content; non-trivial when it contains a removal "
         "or a set operator (histories) resp. a mutation between two steps of an open iterator (iterators).")
 
 
@@ -843,5 +847,205 @@ class StoreLevel(Suite):
                 yield {"simple": False, "keys": [None, 1, 2], "ops": [[list(o), [1, 3, 5]] for o in seq]}
 
 
+class SimpleIter(Suite):
+    """the generator SimpleMemory.triples((None,None,None)) stepped between mutations (exact yields, in order)"""
+    name = "simpleiter"
+    imports = "From RV Require Import Store.SimpleIter."
+    case_ty = "sicase"
+    obs_ty = "list siobs1"
+    model = "simodel_obs"
+    oeq = "siobs_eqb"
+    spec = "sispec_ok"
+    corr = "SimpleMemory.triples((None, None, None)) as a generator (through Graph.__iter__), interleaved with SimpleMemory.add/remove"
+    quick_n = 200
+    thorough_n = 6000
+    timeout_s = 20.0
+
+    # case = {"ops": [["add", t] | ["rem", pat] | ["open"] | ["next", i] | ["drain", i]]}
+
+    def gen(self, rng, i):
+        subs = rng.sample([1, 2, 5, 6, 8], rng.choice([1, 2, 3]))
+        preds = rng.sample([3, 4, 7], rng.choice([1, 2]))
+        objs = rng.sample([1, 5, 6, 7, 9, 10, 14], rng.choice([2, 3]))
+        pool = [[s, p, o] for s in subs for p in preds for o in objs]
+        rng.shuffle(pool)
+        pool = pool[: rng.choice([3, 4, 5, 6, 8])]
+        ops = [["add", rng.choice(pool)] for _ in range(rng.choice([1, 2, 3, 4, 5]))]
+        nit = 0
+        for _ in range(rng.choice([4, 6, 8, 10, 14])):
+            r = rng.random()
+            t = rng.choice(pool)
+            if (r < 0.15 or nit == 0) and nit < 3:
+                ops.append(["open"])
+                nit += 1
+            elif r < 0.55:
+                ops.append(["next", rng.randrange(nit)])
+            elif r < 0.72:
+                ops.append(["add", t])
+            elif r < 0.92:
+                ops.append(["rem", t if rng.random() < 0.7 else [x if rng.random() < 0.5 else None for x in t]])
+            else:
+                ops.append(["drain", rng.randrange(nit)])
+        for k in range(nit):
+            ops.append(["drain", k])
+        return {"ops": ops}
+
+    def run_impl(self, case):
+        g = Graph(store=SimpleMemory(), identifier=GRAPH_POOL[0])
+        its, obs = [], []
+        for op in case["ops"]:
+            k = op[0]
+            ent = [999, [], 0]
+            try:
+                if k == "add":
+                    g.add(tuple(term(x) for x in op[1]))
+                elif k == "rem":
+                    g.remove(tuple(None if x is None else term(x) for x in op[1]))
+                elif k == "open":
+                    its.append(iter(g))
+                else:
+                    it = its[op[1]]
+                    ys, st = [], 0
+                    while True:
+                        try:
+                            ys.append(tids(next(it)))
+                        except StopIteration:
+                            st = 1
+                            break
+                        if k == "next":
+                            break
+                    ent = [op[1], ys, st]
+            except Exception:  # noqa: BLE001
+                ent = [998, [], 2]
+            obs.append(ent)
+        return obs
+
+    def on_timeout(self, case):
+        return [[998, [], 2]]
+
+    def coq_case(self, case):
+        out = []
+        for op in case["ops"]:
+            k = op[0]
+            if k == "add":
+                out.append(f"SiAdd {c_triple(op[1])}")
+            elif k == "rem":
+                out.append(f"SiRemove {c_pat(op[1])}")
+            elif k == "open":
+                out.append("SiOpen")
+            elif k == "next":
+                out.append(f"SiNext {int(op[1])}%nat")
+            else:
+                out.append(f"SiDrain {int(op[1])}%nat")
+        return "{| sic_ops := " + clist(out) + " |}"
+
+    def coq_obs(self, obs):
+        return clist(ctuple(cN(i), c_tl(ys), cN(st)) for i, ys, st in obs)
+
+    def nontrivial(self, case, obs):
+        seen_open, seen_mut = False, False
+        for op in case["ops"]:
+            if op[0] == "open":
+                seen_open = True
+            elif op[0] in ("add", "rem") and seen_open:
+                seen_mut = True
+            elif op[0] in ("next", "drain") and seen_mut:
+                return True
+        return False
+
+    def features(self, case, obs):
+        return {"ops_total": len(case["ops"]), "yields": sum(len(e[1]) for e in obs)}
+
+    def shrink(self, case):
+        ops = case["ops"]
+        for i in range(len(ops)):
+            if ops[i][0] != "open":
+                yield dict(case, ops=ops[:i] + ops[i + 1:])
+
+
+class Transitive(Suite):
+    """Graph.transitive_objects / transitive_subjects on cyclic graphs"""
+    name = "transitive"
+    imports = "From RV Require Import Store.Model Store.TransitiveGraph."
+    case_ty = "trcase"
+    obs_ty = "trobs"
+    model = "trmodel_obs"
+    oeq = "trobs_eqb"
+    spec = "trspec_ok"
+    corr = ("Graph.transitive_objects, Graph.transitive_subjects (recursion with the shared `remember` dict) over Graph.objects / "
+            "Graph.subjects; Graph.transitiveClosure with func = objects of a predicate")
+    quick_n = 200
+    thorough_n = 6000
+    timeout_s = 20.0
+
+    # case = a histories case (adds / removes on 1-2 graphs) + "qs": [[x, p|None]...]
+
+    def gen(self, rng, i):
+        simple = rng.random() < 0.3
+        nodes = rng.sample([1, 2, 5, 6, 8, 14], rng.choice([2, 3, 3, 4]))
+        preds = rng.sample([3, 4, 7], rng.choice([1, 2]))
+        handles = [[0, 1, 1]] if simple else [[0, c, k + 1] for k, c in enumerate(rng.sample([1, 2, 3], rng.choice([1, 2])))]
+        ops = []
+        for _ in range(rng.choice([2, 3, 4, 5, 6, 8, 10])):
+            t = [rng.choice(nodes), rng.choice(preds), rng.choice(nodes)]     # self-loops and cycles are frequent
+            g = rng.choice(handles)
+            if rng.random() < 0.85:
+                ops.append([["add", g, t], t])
+            else:
+                ops.append([["rem", g, [x if rng.random() < 0.6 else None for x in t]], t])
+        qs = []
+        for _ in range(rng.choice([1, 2, 3])):
+            qs.append([rng.choice(nodes + [12]), rng.choice(preds + [None])])
+        return {"k0": simple, "k1": simple, "handles": handles, "ops": ops, "qs": qs}
+
+    def run_impl(self, case):
+        w = World(case["k0"], case["k1"])
+        for op, _ in case["ops"]:
+            exec_op(w, op)
+        out = []
+        for hd in case["handles"]:
+            g = w.graph(hd)
+            per = []
+            for x, p in case["qs"]:
+                pt = None if p is None else term(p)
+                try:
+                    per.append([[term_id(y) for y in g.transitive_objects(term(x), pt)],
+                                [term_id(y) for y in g.transitive_subjects(pt, term(x))],
+                                [term_id(y) for y in g.transitiveClosure(lambda n, gr: gr.objects(n, pt), term(x))]])
+                except Exception:  # noqa: BLE001
+                    per.append([[997], [997], [997]])
+            out.append(per)
+        return out
+
+    def on_timeout(self, case):
+        return []
+
+    def coq_case(self, case):
+        qs = clist(ctuple(cN(x), copt(p, cN)) for x, p in case["qs"])
+        return "{| trc := " + HISTORIES.coq_case(case) + "; tr_qs := " + qs + " |}"
+
+    def coq_obs(self, obs):
+        return clist(clist(ctuple(clist(cN(a) for a in o), clist(cN(a) for a in s_), clist(cN(a) for a in t_))
+                           for o, s_, t_ in per) for per in obs)
+
+    def nontrivial(self, case, obs):
+        return any(len(o) > 1 or len(s_) > 1 for per in obs for o, s_, t_ in per)
+
+    def features(self, case, obs):
+        f = {"queries": len(case["qs"]), "store_" + ("simple" if case["k0"] else "memory"): 1}
+        f["closure_of_3_or_more"] = sum(1 for per in obs for o, s_, t_ in per if len(o) >= 3 or len(s_) >= 3)
+        f["transitiveClosure_yields_a_node_twice"] = sum(1 for per in obs for o, s_, t_ in per if len(t_) != len(set(t_)))
+        f["self_loop_edges"] = sum(1 for op, _ in case["ops"] if op[0] == "add" and op[2][0] == op[2][2])
+        return f
+
+    def shrink(self, case):
+        ops = case["ops"]
+        for i in range(len(ops)):
+            yield dict(case, ops=ops[:i] + ops[i + 1:])
+        for i in range(len(case["qs"])):
+            if len(case["qs"]) > 1:
+                yield dict(case, qs=case["qs"][:i] + case["qs"][i + 1:])
+
+
 HISTORIES = Histories()
-SUITES = [HISTORIES, Iterators(), Reads(), StoreLevel()]
+SUITES = [HISTORIES, Iterators(), Reads(), StoreLevel(), SimpleIter(), Transitive()]
